@@ -393,5 +393,389 @@ def unit_cases(ctx):
     ctx.trace(len(terms) - len(bad))
 
 
+# ---------------------------------------------------------------------------
+# unit level: real ShareFinder, fake servers, harness queue and timers
+# ---------------------------------------------------------------------------
+def drive_finder(case):
+    """Run the real ShareFinder.  Returns (events, observation rows)."""
+    import random
+    import allmydata.immutable.downloader.finder as FI
+    from allmydata.immutable.downloader.status import DownloadStatus
+    from allmydata import uri
+    from twisted.internet import defer
+    from twisted.python.failure import Failure
+    r = random.Random(case["seed"])
+    queue = []
+    outs = []
+    timers = {}
+
+    class Timer(object):
+        def __init__(self, fn, args):
+            self.fn, self.args, self.active = fn, args, True
+
+        def cancel(self):
+            self.active = False
+
+    class Reactor(object):
+        def callLater(self, delay, fn, *args):
+            t = Timer(fn, args)
+            timers[args[0].server.i] = t
+            return t
+
+    class Srv(object):
+        def __init__(self, i):
+            self.i = i
+            self.d = None
+
+        def get_name(self):
+            return b"s%d" % self.i
+
+        def get_storage_server(self):
+            return self
+
+        def get_buckets(self, si):
+            self.d = defer.Deferred()
+            outs.append([0, self.i])
+            return self.d
+
+    class Broker(object):
+        def __init__(self, servers):
+            self.servers = servers
+
+        def get_servers_for_psi(self, si):
+            return list(self.servers)
+
+    class Node(object):
+        def get_num_segments(self):
+            return (1, False)
+
+        def got_shares(self, shares):
+            pass
+
+        def no_more_shares(self):
+            pass
+
+    class FShare(object):
+        def __init__(self, bucket, server, verifycap, cs, node, ds, shnum, rtt, lp):
+            self.shnum, self.server = shnum, server
+
+        def __repr__(self):
+            return "FS(%d,%d)" % (self.shnum, self.server.i)
+
+    servers = [Srv(i) for i in case["servers"]]
+    by_i = {s.i: s for s in servers}
+    vcap = uri.CHKFileVerifierURI(b"\x01" * 16, b"\x02" * 32, 2, 4, 1000)
+    node = Node()
+    saved = (FI.eventually, FI.reactor, FI.Share)
+
+    def ev(f, *a, **kw):
+        name = getattr(f, "__name__", "")
+        if name == "loop":
+            queue.append((f, a, kw))
+        elif name == "got_shares":
+            shares = a[0]
+            outs.append([1, shares[0].server.i] + [sh.shnum for sh in shares])
+        elif name == "no_more_shares":
+            outs.append([2])
+        else:
+            raise AssertionError("unexpected eventual-send %r" % (f,))
+    FI.eventually = ev
+    FI.reactor = Reactor()
+    FI.Share = FShare
+    events = []
+    try:
+        fd = FI.ShareFinder(Broker(servers), vcap, node, DownloadStatus(b"\x00" * 16, 1000), None, max_outstanding_requests=case["max"])
+        for _ in range(case["steps"]):
+            x = r.random()
+            pending = sorted(rt.server.i for rt in fd.pending_requests)
+            armed = sorted(i for i, t in timers.items() if t.active and i in pending and i not in [rt.server.i for rt in fd.overdue_requests])
+            if x < 0.18:
+                events.append("DHungry")
+                fd.hungry()
+            elif x < 0.55 and queue:
+                events.append("DLoop")
+                f, a, kw = queue.pop(0)
+                f(*a, **kw)
+            elif x < 0.80 and pending:
+                i = r.choice(pending)
+                if r.random() < 0.25:
+                    events.append("(DError %d)" % i)
+                    by_i[i].d.errback(Failure(RuntimeError("dyhb")))
+                else:
+                    shn = sorted(case["shares"].get(i, []))
+                    events.append("(DResponse %d %s)" % (i, T.lst([T.N(v) for v in shn])))
+                    by_i[i].d.callback({n: object() for n in shn})
+            elif x < 0.92 and armed:
+                i = r.choice(armed)
+                events.append("(DOverdue %d)" % i)
+                t = timers[i]
+                t.active = False
+                t.fn(*t.args)
+            elif x < 0.94:
+                events.append("DStop")
+                fd.stop()
+                for t in timers.values():
+                    pass
+        rows = [[s.i for s in servers[len(servers) - _remaining(fd):]] if fd._started else [s.i for s in servers],
+                sorted(rt.server.i for rt in fd.pending_requests),
+                sorted(rt.server.i for rt in fd.overdue_requests),
+                sorted(rt.server.i for rt in fd.overdue_timers),
+                [int(fd._hungry), int(fd.running), len(queue)]] + outs
+        return events, rows, fd
+    finally:
+        FI.eventually, FI.reactor, FI.Share = saved
+
+
+def _remaining(fd):
+    """how many servers the finder's iterator still holds (without consuming it)"""
+    import copy
+    if fd._servers is None:
+        return 0
+    it = copy.copy(fd._servers)
+    return len(list(it))
+
+
+def finder_cases(ctx):
+    ctx.correspondence("share-finder-vs-model")
+    n = ctx.n(250, 2500)
+    terms, info = [], []
+    for i in range(n):
+        r = ctx.rng("finder", i)
+        nsrv = r.choice([0, 1, 2, 3, 5, 8])
+        servers = r.sample(range(20), nsrv)
+        shares = {}
+        for sv in servers:
+            if r.random() < 0.6:
+                shares[sv] = sorted(r.sample(range(6), r.choice([1, 1, 2, 3])))
+        case = {"servers": servers, "shares": shares, "max": r.choice([1, 2, 3, 10]), "steps": r.choice([10, 30, 60]), "seed": r.getrandbits(32)}
+        try:
+            events, rows, fd = drive_finder(case)
+        except Exception as e:
+            ctx.oracle_fail("finder-raised:" + type(e).__name__, "ShareFinder raised %s: %s" % (type(e).__name__, e), case=case)
+            continue
+        nomore = any(row == [2] for row in rows[5:])
+        ctx.case((tuple(servers), tuple(events)) if any(e.startswith("(DOverdue") or e.startswith("(DError") for e in events) else None,
+                 kind="finder:%s" % ("exhausted" if nomore else "searching"))
+        # direct oracle: exhaustion is reported only when every server was asked and nothing is in flight
+        if nomore:
+            asked = set(row[1] for row in rows[5:] if row[0] == 0)
+            if asked != set(servers):
+                ctx.oracle_fail("no-more-shares-before-all-servers-asked", "no_more_shares although servers %r were never asked" % sorted(set(servers) - asked), case=case)
+        # a hungry running finder with nothing queued and nothing pending has reported exhaustion
+        if fd._hungry and fd.running and rows[4][2] == 0 and not rows[1] and not nomore:
+            ctx.oracle_fail("finder-idle-without-answer", "hungry ShareFinder has nothing queued, nothing pending and never reported no_more_shares", case=case,
+                            observed=rows[:5])
+        if fd._started or not events:
+            terms.append("lln_eqb (dobs (drun (dinit %s %s) %s)) %s" % (
+                T.lst([T.N(v) for v in servers]), T.nat(case["max"]), T.lst(events), lln(rows)))
+            info.append((case, events, rows))
+    bad = ctx.coq_check(IMPORTS, terms, tag="c03finder")
+    for ix in bad[:20]:
+        case, events, rows = info[ix]
+        ctx.mismatch("finder-model-differs", "ShareFinder and the finder model of Model/Fetcher.v disagree", case=dict(case, events=events), observed=rows,
+                     correspondence="share-finder-vs-model")
+    ctx.trace(len(terms) - len(bad))
+
+
+# ---------------------------------------------------------------------------
+# grid: whole downloads against placements, damaged shares, fault plans, schedules
+# ---------------------------------------------------------------------------
+BAD_KINDS = ["delete", "blocks", "version", "truncate", "read-error"]          # certainly unusable
+MAYBE_KINDS = ["ueb", "sharehashes", "blockhashes", "cthashes", "read-error-nth", "corrupt-answer"]   # usable or not, depending on the schedule
+
+
+def gen_grid_case(r):
+    k, n = r.choice([(1, 1), (1, 3), (2, 3), (2, 4), (3, 5), (3, 6), (2, 6)])
+    servers = r.choice([max(1, n - 2), n, n + 1, n + 3])
+    seg = r.choice([k * 16, 64, 96, 4096])
+    size = r.choice([57, seg, seg + 1, 2 * seg + 5, 3 * seg, 250])
+    # placement: instance list of (shnum, server); every share number once, some twice, several per server
+    place = []
+    crowd = r.random() < 0.4
+    for shnum in range(n):
+        place.append([shnum, r.randrange(min(2, servers)) if crowd else r.randrange(servers)])
+    for _ in range(r.choice([0, 0, 1, 2])):
+        shnum = r.randrange(n)
+        sv = r.randrange(servers)
+        if [shnum, sv] not in place:
+            place.append([shnum, sv])
+    # fates
+    pbad = r.choice([0.0, 0.2, 0.4, 0.6, 0.8])
+    fates = []
+    for inst in place:
+        x = r.random()
+        if x < pbad:
+            fates.append(r.choice(BAD_KINDS))
+        elif x < pbad + 0.15:
+            fates.append(r.choice(MAYBE_KINDS))
+        elif x < pbad + 0.25:
+            fates.append("late")
+        else:
+            fates.append("good")
+    sfates = {}
+    for sv in range(servers):
+        x = r.random()
+        if x < 0.08:
+            sfates[sv] = "dyhb-error"
+        elif x < 0.14:
+            sfates[sv] = "dyhb-late"
+        elif x < 0.18:
+            sfates[sv] = "dyhb-lost"
+    return {"k": k, "n": n, "servers": servers, "segsize": seg, "size": size, "place": place, "fates": fates,
+            "server_fates": {str(a): b for a, b in sfates.items()}, "nth": r.randrange(0, 5), "seed": r.getrandbits(30),
+            "fifo": r.choice(["server", "server", "none"])}
+
+
+def classify(case):
+    """per instance: 'good' | 'maybe' | 'bad' (the oracle's reading of the fates)"""
+    out = []
+    for (shnum, sv), fate in zip(case["place"], case["fates"]):
+        sf = case["server_fates"].get(str(sv))
+        if sf in ("dyhb-error", "dyhb-lost") or fate in BAD_KINDS:
+            out.append("bad")
+        elif fate in MAYBE_KINDS:
+            out.append("maybe")
+        else:
+            out.append("good")
+    return out
+
+
+def run_c03_grid_case(case):
+    import os
+    import shutil
+    import struct
+    from core import grid as G
+    from props.segq_common import parse_share
+    data = bytes((13 * i + case["size"] + (i >> 4)) & 0xFF for i in range(case["size"]))
+    with G.Grid(num_servers=max(case["servers"], case["n"]), k=case["k"], n=case["n"], happy=1, max_segment_size=case["segsize"],
+                seed=case["seed"], fifo=case["fifo"], timeout=case.get("timeout", 10)) as g:
+        cap = g.run(g.upload(data, convergence=b"c03"))
+        # ---- placement: collect the N share files, then put copies where the case wants them
+        originals = {}
+        for sh in g.find_shares(cap):
+            originals[sh.shnum] = g.read_share(sh)
+            rel = os.path.relpath(sh.path, g.server(sh.server).sharedir)
+            reldir = os.path.dirname(rel)
+            g.delete_share(sh)
+        for sv in range(case["servers"], max(case["servers"], case["n"])):
+            g.remove_server(sv)
+        plan = []
+        for (shnum, sv), fate in zip(case["place"], case["fates"]):
+            raw = originals[shnum]
+            p = parse_share(raw)
+            d = bytearray(raw)
+            body = 12
+
+            def flip(off):
+                d[body + off] ^= 0x21
+            if fate == "delete":
+                continue
+            if fate == "blocks":
+                nblocks = -(-p["data_size"] // max(1, p["block_size"]))
+                for b in range(nblocks):
+                    flip(p["o_data"] + min(p["data_size"] - 1, b * p["block_size"] + (b % max(1, p["block_size"]))))
+            elif fate == "version":
+                d[body:body + 4] = struct.pack(">L", 7)
+            elif fate == "truncate":
+                d = d[:body + (case["nth"] * 9) % 60]
+            elif fate == "ueb":
+                flip(len(p["data"]) - 5 if False else (len(raw) - 12 - 72 - 3))
+            elif fate == "sharehashes":
+                flip(p["o_bh"] + (len(p["data"]) - 0) * 0 + 0 if False else _share_hash_offset(p) + 3)
+            elif fate == "blockhashes":
+                flip(p["o_bh"] + 1)
+            elif fate == "cthashes":
+                flip(p["o_ct"] + 1)
+            dirpath = os.path.join(g.server(sv).sharedir, reldir)
+            os.makedirs(dirpath, exist_ok=True)
+            with open(os.path.join(dirpath, str(shnum)), "wb") as f:
+                f.write(bytes(d))
+            if fate == "read-error":
+                plan.append({"server": sv, "method": "read", "shnum": shnum, "nth": 0, "count": None, "action": "error"})
+            elif fate == "read-error-nth":
+                plan.append({"server": sv, "method": "read", "shnum": shnum, "nth": case["nth"], "count": 1, "action": "error_after"})
+            elif fate == "corrupt-answer":
+                plan.append({"server": sv, "method": "read", "shnum": shnum, "nth": case["nth"], "count": 1, "action": "corrupt", "how": "flip", "offset": 40 + case["nth"]})
+            elif fate == "late":
+                plan.append({"server": sv, "method": "read", "shnum": shnum, "nth": 0, "count": 2, "action": "delay"})
+        for sv, sf in case["server_fates"].items():
+            act = {"dyhb-error": "error", "dyhb-late": "delay", "dyhb-lost": "drop"}[sf]
+            plan.append({"server": int(sv), "method": "get_buckets", "nth": 0, "count": None, "action": act})
+        g.set_faults(plan)
+        out = g.run(g.download(cap), outcome=True)
+        # a second read on a fresh node with another schedule
+        g.sched.reseed(case["seed"] + 1)
+        g.set_faults(plan)
+        out2 = g.run(g.download_range(cap, 1, case["size"]), outcome=True)
+    return data, out, out2
+
+
+def _share_hash_offset(p):
+    import struct
+    data = p["data"]
+    (ver,) = struct.unpack(">L", data[:4])
+    if ver == 1:
+        return struct.unpack(">L", data[0x1c:0x20])[0]
+    return struct.unpack(">Q", data[0x34:0x3c])[0]
+
+
+def grid_cases(ctx):
+    ctx.correspondence("grid-downloads-vs-rule")
+    n = ctx.n(110, 1100)
+    for i in range(n):
+        r = ctx.rng("grid", i)
+        case = gen_grid_case(r)
+        cls = classify(case)
+        good = set(shnum for (shnum, sv), c in zip(case["place"], cls) if c == "good")
+        usable = set(shnum for (shnum, sv), c in zip(case["place"], cls) if c in ("good", "maybe"))
+        lost = any(v == "dyhb-lost" for v in case["server_fates"].values())
+        try:
+            data, out, out2 = run_c03_grid_case(case)
+        except Exception as e:
+            ctx.mismatch("grid-harness-error", "grid case could not be set up: %s: %s" % (type(e).__name__, e), case=case, correspondence="grid-downloads-vs-rule")
+            continue
+        k = case["k"]
+        expect = "ok" if len(good) >= k else ("error" if len(usable) < k else "either")
+        damaged = any(c != "good" for c in cls) or bool(case["server_fates"])
+        for which, o, want in (("read", out, data), ("second read", out2, data[1:])):
+            st = o.status
+            ctx.count("grid-outcome:%s:%s" % (expect, st if st != "error" else o.error))
+            if st in ("hung", "timeout"):
+                if lost and expect != "ok" and st == "hung":
+                    continue      # a server that never answers its DYHB: outside the statement when shares are short
+                ctx.oracle_fail("read-never-finished", "%s with %d good / %d usable share numbers (k=%d) is %s" % (which, len(good), len(usable), k, st), case=case,
+                                expected=expect, observed=st)
+                continue
+            if st == "ok":
+                if o.value != want:
+                    ctx.oracle_fail("read-returned-wrong-data", "%s returned %d bytes that differ from the uploaded data" % (which, len(o.value)), case=case,
+                                    expected=want.hex()[:200], observed=o.value.hex()[:200])
+                elif expect == "error":
+                    ctx.oracle_fail("data-from-fewer-than-k-good-shares", "%s succeeded although only %d share numbers are usable (k=%d)" % (which, len(usable), k), case=case)
+            else:
+                if expect == "ok":
+                    ctx.oracle_fail("k-good-shares-but-read-failed", "%s failed with %s although %d distinct good share numbers sit on answering servers (k=%d)" % (
+                        which, o.error, len(good), k), case=case, expected="data", observed=str(o.failure.value)[:300] if o.failure else o.error)
+                elif o.error not in ("NotEnoughSharesError", "NoSharesError"):
+                    ctx.oracle_fail("wrong-error-class-for-missing-shares", "%s failed with %s instead of NotEnoughSharesError/NoSharesError" % (which, o.error), case=case,
+                                    observed=str(o.failure.value)[:300] if o.failure else o.error)
+        ctx.case((case["seed"], tuple(case["fates"])) if damaged else None, kind="grid:expect-%s" % expect)
+        if i < 3:
+            ctx.sample({"case": case, "classes": cls, "outcome": [out.status, out.error]})
+        ctx.trace(1)
+
+
+def replay(ctx, rec):
+    case = rec.get("case") or {}
+    if "place" in case:
+        data, out, out2 = run_c03_grid_case(case)
+        return {"read": [out.status, out.error], "second": [out2.status, out2.error], "classes": classify(case)}
+    if "events" in case and "shares" in case and "k" in case:
+        return {"note": "unit case: events and shares in the record are the input of frun (finit k segnum)"}
+    return {"note": "no single-case replay for this record"}
+
+
 def run(ctx):
     unit_cases(ctx)
+    finder_cases(ctx)
+    grid_cases(ctx)
